@@ -114,6 +114,27 @@ pub fn observe<T: CellT>(t: &TooDee<T>) -> Obs {
         o.dup = before - s.len();
     }
     if !shape_ok {
+        // The dimensions promise more cells than the Vec owns: the coordinates beyond data().len() are reachable through
+        // the unchecked indexers.  Look at what lies there (inside the allocation only): an element that has already
+        // been dropped is "dropped while still reachable through the array" (C05).
+        if T::TRACKED && std::mem::size_of::<T>() > 0 {
+            if let Some(want) = nc.checked_mul(nr) {
+                let upto = want.min(t.capacity());
+                let base = t.data().as_ptr();
+                for i in len..upto {
+                    let e: &T = unsafe { &*base.add(i) };
+                    if e.magic_ok() {
+                        match ledger::is_live(e.serial()) {
+                            Some(false) => o.dead += 1,
+                            Some(true) => {}
+                            None => o.garbage += 1,
+                        }
+                    } else {
+                        o.garbage += 1;
+                    }
+                }
+            }
+        }
         // nothing else is safe to call on an array whose dimensions disagree with its contents
         o.lens_ok = false;
         o.index_ok = false;
